@@ -54,6 +54,7 @@ func cmdFunc(args []string) {
 	dump := fs.Bool("dump", false, "dump query")
 	timeout := fs.Int("timeout", 20, "solver timeout (s)")
 	smoke := fs.Bool("smoke", true, "smoke probes")
+	thorough := fs.Bool("thorough", false, "include thorough-tier (T) clauses")
 	repo := fs.String("repo", "/repo", "repository")
 	fs.Parse(args)
 	p := loadAll(*repo)
@@ -72,7 +73,7 @@ func cmdFunc(args []string) {
 		}
 		for _, k := range matches {
 			fn := p.funcs[k]
-			r := p.VerifyFunc(fn, VerifyOpts{Safety: *safety, Locks: *locks, TimeoutS: *timeout, Smoke: *smoke})
+			r := p.VerifyFunc(fn, VerifyOpts{Thorough: *thorough, Safety: *safety, Locks: *locks, TimeoutS: *timeout, Smoke: *smoke})
 			printFuncResult(r, true)
 			if *dump {
 				sel := map[*Obligation]bool{}
